@@ -2,14 +2,17 @@ package main
 
 import (
 	"fmt"
+	"io"
 	"os"
 	"regexp"
 	"strconv"
 	"strings"
+	"sync/atomic"
 	"time"
 
 	gohlslib "github.com/bluenviron/gohlslib/v2"
 	"github.com/bluenviron/gohlslib/v2/pkg/codecs"
+	"github.com/bluenviron/gohlslib/v2/pkg/storage"
 	"github.com/bluenviron/mediacommon/v2/pkg/codecs/mpeg4audio"
 )
 
@@ -136,14 +139,71 @@ func (d *driver) writeFrame(idr bool) error {
 	return d.m.WriteH264(d.vt, t0.Add(time.Duration(j)*250*time.Millisecond), int64(j)*22500, au)
 }
 
+// ---- storage gate: a yield point INSIDE the writer's part finalize ----
+// muxerPart.finalize marshals the part into storage.Part.Writer(): the wrapper parks the writer
+// there (muxer mutex held, part not yet published) when the gate is armed for that call.
+
+type storageGate struct {
+	armAt atomic.Int32 // park at the armAt-th Writer() call from now on; -1 = disarmed
+	calls atomic.Int32
+}
+
+func (g *storageGate) arm(at int) {
+	g.calls.Store(0)
+	g.armAt.Store(int32(at))
+}
+
+type gateFactory struct {
+	storage.Factory
+	g *storageGate
+}
+
+func (f *gateFactory) NewFile(name string) (storage.File, error) {
+	fi, err := f.Factory.NewFile(name)
+	if err != nil {
+		return nil, err
+	}
+	return &gateFile{File: fi, g: f.g}, nil
+}
+
+type gateFile struct {
+	storage.File
+	g *storageGate
+}
+
+func (f *gateFile) NewPart() storage.Part { return &gatePart{Part: f.File.NewPart(), g: f.g} }
+
+type gatePart struct {
+	storage.Part
+	g *storageGate
+}
+
+func (p *gatePart) Writer() io.WriteSeeker {
+	if at := p.g.armAt.Load(); at >= 0 {
+		if n := p.g.calls.Add(1) - 1; n == at {
+			p.g.armAt.Store(-1)
+			dispatchHook("storage:part-writer")
+		}
+	}
+	return p.Part.Writer()
+}
+
+// wrapStorage interposes the gate on every file created from now on.
+func (d *driver) wrapStorage() *storageGate {
+	g := &storageGate{}
+	g.armAt.Store(-1)
+	gohlslib.VerifWrapStorage(d.m, func(f storage.Factory) storage.Factory { return &gateFactory{Factory: f, g: g} })
+	return g
+}
+
 // ---- snapshots ----
 
 type snapStream struct {
 	NextSegmentID, NextPartID, DeleteCount, Len, Gaps, TargetDuration int64
-	HasNext                                                          bool
-	NextParts                                                        int64
-	Closed                                                           bool
-	Durations                                                        []int64
+	HasNext                                                           bool
+	NextParts                                                         int64
+	Closed                                                            bool
+	Durations                                                         []int64
 }
 
 type apath struct {
@@ -227,7 +287,7 @@ type areq struct {
 	Kind   string  `json:"kind"` // multi media path
 	Stream int     `json:"stream,omitempty"`
 	Query  []qitem `json:"query,omitempty"`
-	Enc    uint64  `json:"enc,omitempty"` // spelling of the raw query (rawQueryEnc); the decoded query is Query
+	Enc    uint64  `json:"enc,omitempty"`   // spelling of the raw query (rawQueryEnc); the decoded query is Query
 	PKind  string  `json:"pkind,omitempty"` // part seg
 	ID     uint64  `json:"id,omitempty"`
 }
